@@ -29,8 +29,28 @@ pub enum DErr {
     },
 }
 
+thread_local! {
+    /// when set, every error value that crosses the adapter is also formatted with Display and Debug
+    /// (formatting is part of "returns normally": a recursive Display impl aborts the process)
+    pub static FORMAT_ERRORS: Cell<bool> = const { Cell::new(false) };
+}
+
+pub fn format_errors(on: bool) {
+    FORMAT_ERRORS.with(|f| f.set(on));
+}
+
+fn fmt_probe<T: core::fmt::Display + core::fmt::Debug>(e: &T) {
+    if FORMAT_ERRORS.with(|f| f.get()) {
+        let a = format!("{}", e);
+        let b = format!("{:?}", e);
+        let c = format!("{:#?}", e);
+        std::hint::black_box((a.len(), b.len(), c.len()));
+    }
+}
+
 impl DErr {
     pub fn of(e: &DecodeErr) -> DErr {
+        fmt_probe(e);
         match e {
             DecodeErr::DiscardedBytes(n) => DErr::Discarded(*n),
             DecodeErr::InvalidEsc(p) => DErr::InvalidEsc(*p),
@@ -677,6 +697,9 @@ pub trait DynReader {
 }
 
 fn rde<E: ErrNorm>(e: ReadDecodedError<E>) -> ROut {
+    if FORMAT_ERRORS.with(|f| f.get()) {
+        std::hint::black_box(format!("{:?}", e).len());
+    }
     match e {
         ReadDecodedError::DecodeErr(d) => ROut::DecodeErr(DErr::of(&d)),
         ReadDecodedError::IoErr(io, n) => ROut::IoErr(io.norm(), n),
@@ -685,6 +708,9 @@ fn rde<E: ErrNorm>(e: ReadDecodedError<E>) -> ROut {
 
 /// Err(Some(out)) = a decode / io error surfaced as T's error type; Err(None) = a parse error
 fn rpe<E: ErrNorm>(e: ReadParsedError<E>) -> Result<PKind, ROut> {
+    if FORMAT_ERRORS.with(|f| f.get()) {
+        std::hint::black_box((format!("{}", e).len(), format!("{:?}", e).len()));
+    }
     match e {
         ReadParsedError::ParseErr(p) => Ok(PKind::of(&p)),
         ReadParsedError::DecodeErr(d) => Err(ROut::DecodeErr(DErr::of(&d))),
@@ -1057,6 +1083,32 @@ pub fn encode_unbounded_prefix(b: u8, n: usize) -> ((usize, Option<usize>), Vec<
     let h = e.size_hint();
     let v: Vec<u8> = e.by_ref().take(n).collect();
     (h, v)
+}
+
+/// the frame as produced through the Iterator adapters that use internal iteration
+pub struct EncAdapters {
+    pub folded: Vec<u8>,
+    pub for_each: Vec<u8>,
+    pub count: usize,
+    pub last: Option<u8>,
+    pub sum: u64,
+    pub collected_ext: Vec<u8>,
+}
+
+pub fn encode_streaming_adapters(p: &[u8]) -> EncAdapters {
+    let folded = encode_streaming(p.iter().copied()).fold(Vec::new(), |mut v, b| {
+        v.push(b);
+        v
+    });
+    let mut fe = Vec::new();
+    encode_streaming(p.iter()).for_each(|b| fe.push(b));
+    let count = encode_streaming(p.iter().copied()).count();
+    let last = encode_streaming(p.iter().copied()).last();
+    let sum = encode_streaming(p.iter().copied()).map(|b| b as u64).sum();
+    let mut ext = vec![0xAAu8];
+    ext.extend(encode_streaming(p.iter().copied()));
+    ext.remove(0);
+    EncAdapters { folded, for_each: fe, count, last, sum, collected_ext: ext }
 }
 
 /// A source iterator that is deliberately *not* fused: after its first None it yields junk again.
